@@ -254,8 +254,12 @@ def run_case(ctx, rng, index, casedir):
             fault = {"worker": state["victim"], "point": f"async_after_event_{after}", "kind": "SIGKILL"}
             # an asynchronous kill may land after the worker's sentinel: treat like after_sentinel
             ev = run["events"]
-            sentinel_put = any(e["ev"] == "put_ret" and e.get("id") == "sentinel" and e.get("w") == state["victim"] for e in ev)
-            if sentinel_put:
+            # call events are logged before invoking: once the victim's put of its sentinel was *called* the
+            # batch may be fully delivered (the feeder thread flushes it even if the worker dies before the
+            # return event is logged). The parent's own view decides: it received a sentinel from every worker.
+            sentinel_called = any(e["ev"] in ("put_call", "put_ret") and e.get("id") == "sentinel" and e.get("w") == state["victim"] for e in ev)
+            sentinels_received = sum(1 for e in ev if e["ev"] == "get_ok" and e.get("id") == "sentinel")
+            if sentinel_called and sentinels_received >= -(-n // b):
                 fault["point"] = "after_sentinel"
             run["events"].append({"ev": "fault_fire", "t": 0, "pid": 0, "role": "supervisor"})
             judge(run, fault, {"config": {"records": n, "batch": b, "cores": c}, "after_event": after}, expected, out, viol, sit)
